@@ -8,7 +8,7 @@ claims = {
  'C04': ('model_checking', "Bounded histories (Append of any sub-run / Sync / restart / DeleteRange, after an optional flushed prelude) over a K-chain on the real Store, keytransform, namespace and 2Q-LRU code, four covering store configurations (full product in thorough); the public API is compared with a reference model after a final Sync.", "One run-to-block schedule per history (interleavings are C12/C17). K<=3,L<=2 quick; K<=4,L<=4 thorough. Datastore = zzMemDS contract (atomic writes/commits)."),
  'C08': ('model_checking', "Every flushed/pending split of a K-chain x every (from,to) pair around the chain ends x four store configurations, then continuation appends, flush and restart on the real Store; plus unconstrained 64-bit (from,to) for the rejection rule.", "Sequential delete path only (deleteParallel outside); K<=3 quick, 5 thorough; datastore contract zzMemDS."),
  'C09': ('model_checking', "Quorum lemma decided for every n in [0,2^31) (proof-level unit); Head() explored for <=3 (quick) / 5 (thorough) peers, every assignment of answers over D distinct headers with unconstrained 64-bit heights and arbitrary verdicts against the trusted head, tracker empty or not; arrival orders covered by peer symmetry.", "Network cut at sendMessage (stub); hanging peers and cancellation not in this check; libp2p not encoded."),
- 'C10': ('model_checking', "handleRangeRequest/handleHeadRequest/handleRequestByHash executed for unconstrained 64-bit origin, amount, tail, head (no loop) against a logging contract store: read bounds, clamp rule, limit, head and hash answers decided by the solver.", "requestHandler framing (serde, stream, status mapping) and protobuf decoding are outside this check."),
+ 'C10': ('model_checking', "handleRangeRequest/handleHeadRequest/handleRequestByHash executed for unconstrained 64-bit origin, amount, tail, head (no loop) against a logging contract store: read bounds, clamp rule, limit, head and hash answers decided by the solver.", "libp2p streams, their deadlines and resets are environment; request bytes come from a catalogue of frames, not from an arbitrary symbolic buffer."),
  'C11': ('proof', "Finite catalogue (payload 5 x decode 3 x validate 3 x verifier 11) explored exhaustively on the real verifyMessage/extractHeader SSA; every obligation discharged.", "Assumes the documented pubsub validator contract (Accept = deliver+relay, Reject = penalise, Ignore = neither); libp2p-pubsub itself is not encoded."),
  'C13': ('model_checking', "Get/GetByHeight against <=2 (quick) / 3 (thorough) trusted peers, each answering with an error, a hang, or 0..2 responses with a defect from the catalogue (symbolic unknown status codes); request timeouts fire at quiescence.", "Network cut at sendMessage; arrival order = peer order (symmetry argument); response lists <= 2."),
  'C14': ('model_checking', "C08's scenarios with 1-2 handlers that read their header back; one handler call fails or panics at every position; exactly-once, readable-at-call, kept-on-failure and retry clauses checked.", "Sequential delete path; at most one failing handler call; K<=3 quick."),
@@ -33,11 +33,23 @@ claims.update({
  'C07': ('model_checking', "Bounded liveness at quiescence: valid heads (adjacent, skipping, bursts during a running sync, also learned through concurrent Head() calls), prefixes of any length from the getter and up to 2 getter errors; the store head must reach the newest verified head, State()/SyncWait must report completion, an error must be reported and nothing lost otherwise.", "'Eventually' = quiescence of the bounded run; K<=7, G<=3 quick; schedules as in C03."),
  'C12': ('model_checking', "Readers (2) blocked in GetByHeight vs appends (contiguous, gapped, out of order, mixed batches) and per-reader cancellations on the real Store; scheduling points at every datastore operation; the lost wake-up found here was fixed (KNOWN_FINDINGS).", "Pre-emption only at datastore operations / writer gates, bound 1 quick, 2 thorough; data races outside."),
  'C17': ('model_checking', "Two writers, a reader and an optional tail-side / whole-range deleter on the real Store: monotone Head/Height, Head retrievable, read-your-synced-writes, equality with a sequential execution, gap-free chain after racing deletion.", "Sequentially consistent interleavings with pre-emption at datastore operations only (bound 1 quick; 2-3 thorough); 3-4 writers, real-thread schedules and the race detector are outside this technique."),
- 'C18': ('model_checking', "Client session code composed with the real ExchangeServer.handleRangeRequest as each peer's behaviour: every range length 1..3 x chunk, chunk sizes {1,2,3} ({..5,64} thorough), 1-2 (3) peers, every availability prefix and benign fault (prefix once, timeout once, disconnect, stall after a prefix) with one fault-free capable peer.", "Wire encoding (serde/protobuf) and libp2p streams are not encoded: the 'unchanged through the wire' clause is covered only up to the HeaderResponse structs."),
+ 'C18': ('model_checking', "Client session code composed with the real ExchangeServer.handleRangeRequest as each peer's behaviour: every range length 1..3 x chunk, chunk sizes {1,2,3} ({..5,64} thorough), 1-2 (3) peers, every availability prefix and benign fault (prefix once, timeout once, disconnect, stall after a prefix) with one fault-free capable peer.", "libp2p streams are replaced by an in-memory pipe in the wire-e2e unit; one server there."),
 })
-claims['C19'] = ('model_checking', "One Head() call from an arbitrary reachable state (stored prefix of a chain with symbolic ages, optional gossip head, optional clock advance, every Parameters value in range) with any getter answer (error, fresh, stale, expired, lower header): zero / exactly one request, trusted head carried, no expired initialisation, no downgrade; monotonicity across calls follows by induction from 'result >= subjective head at entry' and 'subjective head never moves backwards'.", "Durations and ages below 2^40 ns; sequences of calls only by induction; concurrent single-flight callers are outside (two-call exploration did not finish in 40 min).")
+claims['C19'] = ('model_checking', "One Head() call from an arbitrary reachable state (stored prefix of a chain with symbolic ages, optional gossip head, optional clock advance, every Parameters value in range) with any getter answer (error, fresh, stale, expired, lower header): zero / exactly one request, trusted head carried, no expired initialisation, no downgrade; monotonicity across calls follows by induction from 'result >= subjective head at entry' and 'subjective head never moves backwards'.", "Durations and ages below 2^40 ns; sequences of calls only by induction (two-call exploration did not finish in 40 min).")
 for k in ['C03','C05','C06','C07','C12','C17','C18','C19']:
     pending.pop(k, None)
+
+# ---- refinements after the later units were added
+def _upd(pid, text_add=None, note_add=None):
+    cat,text,note = claims[pid]
+    claims[pid] = (cat, text + (" " + text_add if text_add else ""), note + (" " + note_add if note_add else ""))
+_upd('C05', "Lemma unit: prepareRequests partitions [from, from+amount) for unconstrained 64-bit arguments with at most R requests (solver-decided). Wire unit: the real sendMessage/serde/protobuf client against the real server through an in-memory pipe, with a Byzantine server appending an extra response frame.", "The first unit cuts the network at sendMessage; the wire unit keeps it and replaces only the libp2p stream.")
+_upd('C10', "Wire unit: requestHandler over a scripted stream with the real serde framing and generated protobuf code: hash / origin requests, missing data, every truncation of a frame and garbage frames; status mapping and dispatch checked on the decoded responses.", "")
+_upd('C08', "Parallel unit: deleteParallel with the threshold lowered to 2: partial failure keeps Tail <= Head, kept headers never below Tail, retry completes.", "")
+_upd('C14', "Parallel unit: the same on deleteParallel (threshold lowered to 2) with handlers failing at up to two heights.", "")
+_upd('C16', "Move unit: the whole subjectiveTail (renewTail + moveTail incl. doSync downwards) for every contiguous stored run of a K-chain and every configuration of the tail (height, hash, window). Second KNOWN-FINDING: moving the tail down onto the header below a single-header store fails with errNonAdjacent.", "")
+_upd('C18', "Wire-e2e unit: real Exchange.Head/Get/GetByHeight/GetRangeByHeight + sendMessage + serde + protobuf against the real requestHandler through an in-memory pipe: headers arrive unchanged.", "")
+_upd('C19', "Single-flight unit: 2 (3) concurrent Head() callers under gate scheduling: never more than one head request in flight, shared result.", "")
 checks=[]
 for pid,(cat,text,note) in sorted(claims.items()):
     checks.append({
